@@ -171,6 +171,85 @@ def pts(lst):
 
 
 # ------------------------------------------------------------------------------------------------
+# Round 4 (L1): large cases are described by a RECIPE (mask ops, sub-size spec, source-plane map, explicit
+# outliers) and materialised with numpy; they are judged by a vectorised statement of the property
+# (exact fall-back on every coordinate the float screen cannot clear), never by the model.
+# ------------------------------------------------------------------------------------------------
+MAX_HINT = 70000            # 2c+1 coordinates must stay feasible in pure Python
+EXPLICIT_MAX = 400          # recipe cases up to this many coordinates are turned into ordinary (modelled) cases
+
+
+def spec_mask(spec):
+    m = np.ones((spec["H"], spec["W"]), dtype=bool)
+    for op in spec["ops"]:
+        _, y0, y1, x0, x1, v = op
+        m[y0:y1, x0:x1] = bool(v)
+    return m
+
+
+def spec_sub(npix, spec):
+    """per-pixel sub-size list from {"base": s0, "alts": [[s, count], ...], "first": k, "stride": p}:
+    the j-th alternative pixel (counted through all alts) is slim pixel (first + j*stride) mod npix."""
+    sub = np.full(npix, int(spec["base"]), dtype=int)
+    j = 0
+    for s, count in spec.get("alts", []):
+        for _ in range(count):
+            sub[(spec.get("first", 0) + j * spec.get("stride", 1)) % npix] = s
+            j += 1
+    return sub
+
+
+def coprime_stride(n):
+    for p in (7, 11, 13, 17, 19, 23, 29, 31, 37):
+        if math.gcd(p, max(n, 1)) == 1:
+            return p
+    return 1
+
+
+def np_sub_grid(maskb, sub, ps, origin):
+    """(total_sub, 2) float64 scaled coordinates of every sub-pixel (own vectorised statement)."""
+    H, W = maskb.shape
+    ys, xs = np.nonzero(~maskb)
+    cnt = sub * sub
+    off = np.concatenate([[0], np.cumsum(cnt)])
+    pix = np.repeat(np.arange(len(sub)), cnt)
+    j = np.arange(int(off[-1])) - off[pix]
+    s = sub[pix]
+    py = ys[pix] + (2 * (j // s) + 1) / (2.0 * s) - 0.5
+    px = xs[pix] + (2 * (j % s) + 1) / (2.0 * s) - 0.5
+    return np.stack([-(py - (H - 1) / 2.0) * ps[0] + origin[0], (px - (W - 1) / 2.0) * ps[1] + origin[1]], axis=1), off
+
+
+def farthest_candidates_int(px, offs, c2, sub, k):
+    """as farthest_candidates, in exact integer arithmetic (distances scaled by (2s)^2); `c2` = twice the
+    region centre (integers)."""
+    y, x = px[k]
+    s = sub[k]
+    by, bx = s * (2 * y - c2[0]) - s, s * (2 * x - c2[1]) - s
+    best, out = -1, []
+    for y1 in range(s):
+        dy2 = (by + 2 * y1 + 1) ** 2
+        for x1 in range(s):
+            d = dy2 + (bx + 2 * x1 + 1) ** 2
+            if d > best:
+                best, out = d, [offs[k] + y1 * s + x1]
+            elif d == best:
+                out.append(offs[k] + y1 * s + x1)
+    return out
+
+
+def indep_sub_border(rows, sub):
+    """(border pixels, exact farthest-candidate lists per border pixel, px, offs) for a ring-masked mask."""
+    px = unmasked_pixels(rows)
+    offs, _ = sub_offsets(sub)
+    ys = [p[0] for p in px]
+    xs = [p[1] for p in px]
+    c2 = (min(ys) + max(ys), min(xs) + max(xs))
+    bp = border_pixels_independent(rows)
+    return bp, [farthest_candidates_int(px, offs, c2, sub, k) for k in bp], px, offs
+
+
+# ------------------------------------------------------------------------------------------------
 class C18(PropertyCheck):
     pid = "C18"
     title = "border relocation"
@@ -178,8 +257,8 @@ class C18(PropertyCheck):
     atol = F(0)
     nontrivial_rule = (
         "a case is non-trivial when at least one coordinate is moved and at least one is left unchanged "
-        "(or, for sub-border-only cases, when some border pixel has sub-size > 1); distinct = distinct "
-        "(mask, sub-size map, pixel scales, origin, grid, mesh)"
+        "(or, for sub-border-only cases, when some border pixel has sub-size > 1; for a history: in at least one "
+        "observing step); distinct = distinct (mask, sub-size map, pixel scales, origin, grid, mesh[, steps])"
     )
     exhaustive_note = {
         "quick": "every mask of a 3x3 interior inside a 5x5 frame (511 border shapes) with sub-size 2: "
@@ -232,6 +311,11 @@ class C18(PropertyCheck):
     # ------------------------------------------------------------------ generation
     def generate(self, tier, rng):
         quick = tier == "quick"
+        # 0. Round 4 (L2): typed histories on REAL reused objects (relocator, grids, meshes, mask); every observing
+        #    step is compared with the model / judged by the oracle for a FRESH relocator on the current values.
+        #    The thorough stream starts with a slice of them so that the time-boxed searches reach them.
+        if not quick:
+            yield from self.history_cases(rng, 60)
         # 1. exhaustive small border shapes
         frames = [((3, 3), [2])] if quick else [((3, 3), [1, 2, 3, 4]), ((3, 4), [2])]
         for (ih, iw), subs in frames:
@@ -298,6 +382,8 @@ class C18(PropertyCheck):
                                  distortion=rng.choice(["scale", "affine", "jitter"]), int_sub=(k % 2 == 0),
                                  grid_form=GRID_FORMS[k % len(GRID_FORMS)],
                                  mesh_form=MESH_FORMS[k % len(MESH_FORMS)])
+        # 4. history stream (see 0.)
+        yield from self.history_cases(rng, 160 if quick else 740)
 
     def _case(self, rng, rows, sub, ps, origin, tag, distortion, int_sub=False, via_mesh=False,
               grid_form="float64", mesh_form="float64"):
@@ -394,6 +480,951 @@ class C18(PropertyCheck):
             "via_mesh": bool(via_mesh), "grid_form": grid_form, "mesh_form": mesh_form,
         }
 
+    # ------------------------------------------------------------------ Round 4 (L1): large stream
+    def generate_large(self, hints, rng):
+        """sizes straddling every new integer constant c (c-1, c, c+1, c+c//3+1, 2c+1) in every size dimension
+        the C18 code loops over: `points` (total sub-pixels = data-grid coordinates, mixed odd sub-size maps on a
+        non-square notched frame), `mesh` (mesh vertices), `pixels` (unmasked pixels, sub-size 1), `frame`
+        (H*W, non-square), `subsize` (sub-pixels of ONE pixel, s*s), `border` (border pixels / border points).
+        Every case has far outliers at the head, around index c, at the first entry of the last partial block
+        and at the very tail, an anisotropic off-origin geometry and a sheared source-plane map."""
+        order = ["nonmult", "at", "above", "below", "double"]
+        dims = ["points", "mesh", "pixels", "frame", "subsize", "subsize2", "border"]
+        for c in hints:
+            if c < 8 or c > MAX_HINT:
+                continue
+            T = {"below": c - 1, "at": c, "above": c + 1, "nonmult": c + c // 3 + 1, "double": 2 * c + 1}
+            for where in order:
+                for dim in dims:
+                    case = self._large_recipe(rng, dim, where, c, T[where])
+                    if case is None:
+                        continue
+                    if case.pop("_n_est") <= EXPLICIT_MAX and case.get("mesh_spec", {}).get("n", 0) <= EXPLICIT_MAX:
+                        case = self._explicit_from_large(case)
+                    yield case
+
+    @staticmethod
+    def _block_mask_spec(n_pix, rng, notch=True):
+        """ring-masked frame with exactly n_pix unmasked pixels: full rows + a partial last row, a notch cut out
+        of the top-left corner (non-convex border), off-centre margins; non-square."""
+        nh = nw = 0
+        if notch and n_pix >= 60:
+            nh, nw = rng.randint(1, 3), rng.randint(2, 4)
+        tot = n_pix + nh * nw
+        w = max(nw + 2, int(round(math.sqrt(tot * rng.choice([0.55, 1.6, 2.3])))))
+        w = max(1, min(w, tot))
+        hfull, rem = divmod(tot, w)
+        if hfull <= nh or w <= nw:
+            nh = nw = 0
+            tot = n_pix
+            w = max(1, min(w, tot))
+            hfull, rem = divmod(tot, w)
+        top, left = 1, 2
+        H = top + hfull + (1 if rem else 0) + 2
+        W = left + w + 1
+        ops = [["rect", top, top + hfull, left, left + w, 0]]
+        if rem:
+            off = 1 if rem + 1 <= w else 0
+            ops.append(["rect", top + hfull, top + hfull + 1, left + off, left + off + rem, 0])
+        if nh:
+            ops.append(["rect", top, top + nh, left, left + nw, 1])
+        return {"H": H, "W": W, "ops": ops}
+
+    @staticmethod
+    def _tail_indices(n, c):
+        idx = {0, 1, n // 2, n - 1, n - 2, c - 1, c, c + 1, (n // c) * c, (n // c) * c - 1,
+               n - 1 - ((n % c) // 2), c // 2, c + c // 2}
+        return sorted(i for i in idx if 0 <= i < n)
+
+    def _large_recipe(self, rng, dim, where, c, t):
+        far = [(F(623, 2), F(-309, 4)), (F(-1157, 8), F(40)), (F(77, 4), F(2001, 2)), (F(-3000), F(-125, 2)),
+               (F(35, 2), F(-33, 4)), (F(-12), F(55, 4))]
+        ps = rng.choice([(F(1, 2), F(3, 4)), (F(1, 4), F(1, 2)), (F(3, 2), F(1)), (F(1), F(1, 4))])
+        origin = (gen.dyadic(rng, -3, 3, 2) or F(1, 4), gen.dyadic(rng, -3, 3, 2) or F(-1, 2))
+        src = {"kind": "affine",
+               "A": [q(rng.choice([F(3, 4), F(5, 4), F(3, 2), F(-1), F(-5, 4)])), q(rng.choice([F(1, 4), F(-1, 4), F(1, 2)])),
+                     q(rng.choice([F(-1, 2), F(1, 4), F(0)])), q(rng.choice([F(3, 4), F(1), F(7, 4), F(-3, 2)]))],
+               "t": [q(gen.dyadic(rng, -2, 2, 2)), q(gen.dyadic(rng, -2, 2, 2))],
+               "push": {"mul": rng.choice([7919, 104729, 613]), "mod": 13, "lt": 3,
+                        "factor": q(rng.choice([F(3, 2), F(3), F(12)]))}}
+        mesh_n, via, sub_spec, int_sub = 24, None, {"base": 2}, False
+        if dim == "points":
+            s0 = 2 if t >= 40 else 1
+            n0 = t if s0 == 1 else t // 4 - 3
+            if n0 < 1:
+                return None
+            r = t - s0 * s0 * n0
+            alts = []
+            if r:
+                sol = [(a, b) for a in range(16) for b in range(16) if 5 * a - 3 * b == r]
+                if not sol:
+                    return None
+                a, b = min(sol, key=lambda ab: ab[0] + ab[1])
+                if a + b >= n0:
+                    return None
+                alts = [[3, a], [1, b]]
+            mask_spec = self._block_mask_spec(n0, rng)
+            sub_spec = {"base": s0, "alts": alts, "first": 2, "stride": coprime_stride(n0)}
+            n_est = t
+            via = "rect" if where in ("nonmult", "at") else None
+        elif dim == "mesh":
+            mask_spec = self._block_mask_spec(rng.randint(20, 34), rng, notch=False)
+            mask_spec["ops"].append(["rect", 2, 3, 3, 5, 1])          # a dent / hole in the block
+            sub_spec = {"base": rng.choice([1, 2, 3])}
+            mesh_n, n_est = t, 34 * 9
+            via = "delaunay" if where in ("nonmult", "above") else None
+        elif dim == "pixels":
+            mask_spec = self._block_mask_spec(t, rng)
+            sub_spec, int_sub, n_est = {"base": 1}, where in ("at", "double"), t
+        elif dim == "frame":
+            cand = []
+            for dt in range(0, 24):
+                tt = t - dt if where == "below" else t + dt
+                if (where == "at" and dt) or tt < 49:
+                    break
+                lo = max(7, int(math.isqrt(tt) / 2.6))
+                fs = [h for h in range(lo, math.isqrt(tt) + 1) if tt % h == 0 and tt // h != h]
+                if fs:
+                    cand = [(rng.choice(fs), tt)]
+                    break
+            if not cand:
+                return None
+            h, tt = cand[0]
+            H, W = (h, tt // h) if rng.random() < 0.5 else (tt // h, h)
+            bh, bw = min(9, H - 4), min(13, W - 5)
+            if bh < 2 or bw < 2:
+                return None
+            y0, x0 = rng.randint(1, H - bh - 2), rng.randint(2, W - bw - 2)
+            ops = [["rect", y0, y0 + bh, x0, x0 + bw, 0], ["rect", y0, y0 + 1, x0, x0 + 2, 1]]
+            if bh >= 5 and bw >= 5:
+                ops.append(["rect", y0 + 2, y0 + 3, x0 + 2, x0 + 4, 1])     # a hole
+            mask_spec = {"H": H, "W": W, "ops": ops}
+            n_est = bh * bw * 4
+        elif dim in ("subsize", "subsize2"):
+            # the sub-pixels of ONE pixel (s*s) straddle c: largest s*s <= c-1, largest s*s <= c, smallest s*s > c, ...
+            # two such pixels sit on opposite corners of a 3x3 unmasked block (one diagonal per dim value), so that
+            # the farthest sub-pixel is each of the four corners of a pixel in turn
+            s = {"below": math.isqrt(c - 1), "at": math.isqrt(c), "above": math.isqrt(c) + 1,
+                 "nonmult": math.isqrt(t), "double": math.isqrt(t) + 1}[where]
+            if 2 * s * s > 2 * MAX_HINT + 2:
+                return None
+            mask_spec = {"H": 6, "W": 6, "ops": [["rect", 1, 4, 2, 5, 0]]}
+            first, stride = (0, 8) if dim == "subsize" else (2, 4)
+            sub_spec = {"base": rng.choice([1, 1, 2]), "alts": [[s, 2]], "first": first, "stride": stride}
+            n_est = 2 * s * s + 7 * 4
+        elif dim == "border":
+            if t * t > 1.3e8 or t < 8:
+                return None
+            mask_spec = {"H": 3, "W": t + 2, "ops": [["rect", 1, 2, 1, t + 1, 0]]}
+            k2 = min(40, t // 3)
+            sub_spec = {"base": 1, "alts": [[2, k2]], "first": 1, "stride": coprime_stride(t)}
+            src = {"kind": "curve", "ry": q(F(7, 2)), "rx": q(F(9, 4)), "c": [q(gen.dyadic(rng, -2, 2, 2)), q(gen.dyadic(rng, -2, 2, 2))],
+                   "push": {"mul": 7919, "mod": 4, "lt": 2, "factor": q(F(3, 2))}}
+            mesh_n, n_est = 96, t + 3 * k2
+        else:
+            return None
+        tail_g = self._tail_indices(n_est, c) if dim in ("points", "pixels") else \
+            [0, 1, c - 1, c, c + 1, -1, -2] if dim.startswith("subsize") else [0, n_est // 2]
+        tail_m = self._tail_indices(mesh_n, c) if dim == "mesh" else [0, mesh_n // 2, mesh_n - 1]
+        outl = [[i, q(far[k % len(far)][0] * (1 + k // len(far))), q(far[k % len(far)][1])] for k, i in enumerate(tail_g)]
+        outm = [[i, q(far[(k + 2) % len(far)][0]), q(far[(k + 2) % len(far)][1] * (1 + k // len(far)))]
+                for k, i in enumerate(tail_m)]
+        return {"tag": f"large_{dim}_{where}", "kind": "large", "hint": c, "dim": dim, "where": where,
+                "mask_spec": mask_spec, "sub_spec": sub_spec, "int_sub": bool(int_sub),
+                "ps": [q(ps[0]), q(ps[1])], "origin": [q(origin[0]), q(origin[1])], "src": src,
+                "outliers": outl if dim != "border" else [],
+                "mesh_spec": {"n": mesh_n, "seed": rng.randrange(1 << 30), "outliers": outm},
+                "via": via, "form": rng.choice(["irregular", "irregular", "raw"]) if via is None else "irregular",
+                "_n_est": n_est}
+
+    _mat_cache = None
+
+    def _materialise(self, case):
+        """numpy arrays of a recipe case (deterministic; cached)."""
+        import json as _json
+        key = _json.dumps({k: v for k, v in case.items() if not k.startswith("_")}, sort_keys=True)
+        if self._mat_cache is None:
+            self._mat_cache = {}
+        if key in self._mat_cache:
+            return self._mat_cache[key]
+        maskb = spec_mask(case["mask_spec"])
+        rows = maskb.tolist()
+        npix = int((~maskb).sum())
+        sub = spec_sub(npix, case["sub_spec"])
+        ps = tuple(float(F(v)) for v in case["ps"])
+        origin = tuple(float(F(v)) for v in case["origin"])
+        base, off = np_sub_grid(maskb, sub, ps, origin)
+        n = len(base)
+        bp, cands, px, offs = indep_sub_border(rows, sub.tolist())
+        sb = np.array([cd[-1] for cd in cands], dtype=int)
+        src = case["src"]
+        ar = np.arange(n)
+        if src["kind"] == "affine":
+            piv = np.round(base.mean(axis=0) * 4) / 4
+            A = np.array([float(F(v)) for v in src["A"]]).reshape(2, 2)
+            tvec = np.array([float(F(v)) for v in src["t"]])
+            g = piv + (base - piv) @ A.T + tvec
+            centre = piv + tvec
+        else:
+            th = 2 * np.pi * ar / n
+            rad = 1 + 0.3 * np.sin(5 * th) + 0.1 * np.cos(3 * th)
+            centre = np.array([float(F(v)) for v in src["c"]])
+            g = centre + np.stack([float(F(src["ry"])) * rad * np.sin(th), float(F(src["rx"])) * rad * np.cos(th)], axis=1)
+        p = src.get("push")
+        if p:
+            sel = ((ar * p["mul"]) % p["mod"]) < p["lt"]
+            sel[sb] = False
+            g[sel] = centre + float(F(p["factor"])) * (g[sel] - centre)
+            if src["kind"] == "curve":      # the other non-border points go inside
+                ins = np.ones(n, dtype=bool)
+                ins[sb] = False
+                ins &= ~sel
+                g[ins] = centre + 0.5 * (g[ins] - centre)
+        g = np.round(g * 1024) / 1024
+        sbset = set(sb.tolist())
+        for i, y, x in case.get("outliers", []):
+            i = i % n if n else 0
+            if n and i not in sbset:
+                g[i] = (float(F(y)), float(F(x)))
+        mesh = None
+        ms = case.get("mesh_spec")
+        if ms and ms["n"] > 0 and len(sb):
+            m = ms["n"]
+            rs = np.random.RandomState(ms["seed"])
+            B = g[sb]
+            bc = B.mean(axis=0)
+            rmax = float(np.sqrt(((B - bc) ** 2).sum(axis=1)).max()) or 1.0
+            u, ang = rs.rand(m), rs.rand(m) * 2 * np.pi
+            rad = rmax * (0.05 + 2.5 * u * u)
+            rad[::5] *= 40.0
+            mesh = bc + np.stack([rad * np.sin(ang), 0.7 * rad * np.cos(ang)], axis=1)
+            mesh = np.round(mesh * 1024) / 1024
+            k = np.arange(0, m, 11)
+            mesh[k] = B[k % len(B)]
+            for i, y, x in ms.get("outliers", []):
+                mesh[i % m] = (float(F(y)), float(F(x)))
+        X = {"maskb": maskb, "rows": rows, "sub": sub, "ps": ps, "origin": origin, "grid": g, "mesh": mesh,
+             "bp": bp, "cands": cands, "sb": sb, "px": px, "offs": offs}
+        if len(self._mat_cache) > 80:
+            self._mat_cache.clear()
+        self._mat_cache[key] = X
+        return X
+
+    def _explicit_from_large(self, case):
+        """small recipe -> ordinary explicit case (runs through the model as well)."""
+        X = self._materialise(case)
+        mesh = X["mesh"] if X["mesh"] is not None else np.zeros((0, 2))
+        return {"tag": case["tag"] + "|explicit", "mask": mask_json(X["rows"]), "sub": [int(s) for s in X["sub"]],
+                "int_sub": bool(case.get("int_sub")), "ps": case["ps"], "origin": case["origin"],
+                "grid": [[q(a), q(b)] for a, b in X["grid"]], "mesh": [[q(a), q(b)] for a, b in mesh],
+                "via_mesh": bool(case.get("via")), "grid_form": "float64", "mesh_form": "float64"}
+
+    def _run_large(self, case):
+        aa = load_autoarray()
+        from autoarray.inversion.pixelization.border_relocator import BorderRelocator
+        import hashlib
+
+        X = self._materialise(case)
+        mask = aa.Mask2D(mask=X["maskb"].copy(), pixel_scales=X["ps"], origin=X["origin"])
+        sub = X["sub"]
+        if case.get("int_sub") and len(set(sub.tolist())) == 1:
+            sub_size = int(sub[0])
+        else:
+            sub_size = aa.Array2D(values=sub.copy(), mask=mask)
+        br = BorderRelocator(mask=mask, sub_size=sub_size)
+        raw = {"border": np.asarray(mask.derive_indexes.border_slim).astype(int),
+               "sub_border": np.asarray(br.sub_border_slim).astype(int)}
+        n = len(X["grid"])
+        obs = {"large": True, "n": n, "n_border": int(len(raw["border"])),
+               "n_mesh": 0 if X["mesh"] is None else int(len(X["mesh"]))}
+        if len(raw["sub_border"]):
+            raw["sub_border_grid"] = np.asarray(br.sub_border_grid, dtype=float).reshape(-1, 2)
+            before = X["grid"].copy()
+            grid = before.copy() if case.get("form") == "raw" else aa.Grid2DIrregular(values=before.copy())
+            arr = lambda o: np.asarray(o.array if hasattr(o, "array") else o, dtype=float).reshape(-1, 2)
+            out = br.relocated_grid_from(grid=grid)
+            raw["grid"] = arr(out).copy()
+            if X["mesh"] is not None:
+                mesh = aa.Grid2DIrregular(values=X["mesh"].copy())
+                raw["mesh"] = arr(br.relocated_mesh_grid_from(grid=grid, mesh_grid=mesh)).copy()
+                raw["mesh_chained"] = arr(br.relocated_mesh_grid_from(grid=out, mesh_grid=mesh)).copy()
+                if case.get("via") == "delaunay":
+                    mg = aa.mesh.Delaunay().mapper_grids_from(mask=mask, source_plane_data_grid=grid,
+                                                              border_relocator=br, source_plane_mesh_grid=mesh)
+                    raw["via_delaunay_grid"] = arr(mg.source_plane_data_grid).copy()
+                    raw["via_delaunay_mesh"] = arr(mg.source_plane_mesh_grid).copy()
+                raw["mesh_untouched"] = bool(np.array_equal(arr(mesh), X["mesh"]))
+            if case.get("via") == "rect":
+                mg = aa.mesh.Rectangular(shape=(3, 4)).mapper_grids_from(mask=mask, source_plane_data_grid=grid,
+                                                                         border_relocator=br)
+                raw["via_rectangular_grid"] = arr(mg.source_plane_data_grid).copy()
+            raw["input_untouched"] = bool(np.array_equal(arr(grid), before))
+            moved = np.any(raw["grid"] != before, axis=1)
+            obs["n_moved"] = int(moved.sum())
+            obs["first_moved"] = [int(i) for i in np.flatnonzero(moved)[:4]]
+            obs["last_moved"] = [int(i) for i in np.flatnonzero(moved)[-4:]]
+            obs["digest"] = hashlib.sha1(raw["grid"].tobytes()).hexdigest()[:16]
+        else:
+            obs["empty_border"] = True
+        obs["sub_border_head"] = [int(v) for v in raw["sub_border"][:6]]
+        ok, why = self._judge_large(case, X, raw)
+        obs["verdict"] = {"holds": bool(ok), "detail": why}
+        return obs
+
+    def _judge_large(self, case, X, raw):
+        """the property on the implementation's output of a large case: (d) exactly (integers / Fractions),
+        (a)(b)(c) by a float64 screen with the exact rule applied to every coordinate the screen cannot clear."""
+        rows, sub = X["rows"], X["sub"].tolist()
+        border, sb = raw["border"].tolist(), raw["sub_border"].tolist()
+        if border != X["bp"]:
+            bad = next((i for i, (a, b) in enumerate(zip(border, X["bp"])) if a != b), min(len(border), len(X["bp"])))
+            return False, (f"border pixels differ from the independently derived ones (first difference at "
+                           f"position {bad}; {len(border)} vs {len(X['bp'])} pixels)")
+        if len(sb) != len(border):
+            return False, "one sub-border index per border pixel expected"
+        for k, s_idx in enumerate(sb):
+            if s_idx not in X["cands"][k]:
+                return False, (f"(d) border pixel {border[k]}: sub index {s_idx} is not a sub-pixel of that pixel "
+                               f"farthest from the bounding-box centre (farthest: {X['cands'][k][:6]})")
+        if not sb:
+            return True, ""
+        h, w = len(rows), len(rows[0])
+        ps = tuple(F(v) for v in case["ps"])
+        origin = tuple(F(v) for v in case["origin"])
+        pix_of = np.searchsorted(np.asarray(X["offs"]), np.asarray(sb), side="right") - 1
+        for k, s_idx in enumerate(sb):
+            pk = int(pix_of[k])
+            y, x = X["px"][pk]
+            s = sub[pk]
+            j = s_idx - X["offs"][pk]
+            py, pxx = sub_pos_pixel_units(y, x, s, j // s, j % s)
+            exp = (-(py - F(h - 1, 2)) * ps[0] + origin[0], (pxx - F(w - 1, 2)) * ps[1] + origin[1])
+            got = raw["sub_border_grid"][k]
+            for cc in (0, 1):
+                if abs(F(float(got[cc])) - exp[cc]) > BAND * max(1, abs(exp[cc])):
+                    return False, f"(d) sub_border_grid[{k}] is not the coordinate of sub-pixel {s_idx}"
+        if not raw["input_untouched"]:
+            return False, "relocation modified its input grid"
+        if raw.get("mesh_untouched") is False:
+            return False, "relocation modified its input mesh grid"
+        G = X["grid"]
+        B = G[np.asarray(sb)]
+        an = [None]
+
+        def exact():
+            if an[0] is None:
+                an[0] = Analysis([(F(float(a)), F(float(b))) for a, b in B])
+            return an[0]
+
+        for key, inp in (("grid", G), ("mesh", X["mesh"]), ("mesh_chained", X["mesh"]), ("via_delaunay_mesh", X["mesh"]),
+                         ("via_delaunay_grid", G), ("via_rectangular_grid", G)):
+            if key in raw:
+                ok, why = self._check_relocation_np(B, inp, raw[key], key, exact)
+                if not ok:
+                    return False, why + (" (mesh vertices must be relocated against the DATA grid's border)"
+                                         if "mesh" in key else "")
+        return True, ""
+
+    def _check_relocation_np(self, B, P, R, name, exact):
+        if R.shape != P.shape:
+            return False, f"(c) {name}: {len(P)} coordinates in, {len(R)} out"
+        ld = np.longdouble
+        Bl, Pl, Rl = B.astype(ld), P.astype(ld), R.astype(ld)
+        o = Bl.mean(axis=0)
+        rb = np.sqrt(((Bl - o) ** 2).sum(axis=1))
+        rmin, rmax = rb.min(), rb.max()
+        rp = np.sqrt(((Pl - o) ** 2).sum(axis=1))
+        ro = np.sqrt(((Rl - o) ** 2).sum(axis=1))
+        scale = np.maximum(1, np.maximum(np.abs(Pl).max(axis=1), np.abs(o).max()))
+        tol = 4e-9 * scale
+        same = np.all(R == P, axis=1)
+        flagged = (ro > rp * (1 + 1e-12) + tol) | (ro > rmax * (1 + 1e-12) + tol)
+        inside = rp <= rmin * (1 - 4e-9)
+        flagged |= inside & ~same
+        rest = np.flatnonzero(~inside & ~flagged)
+        step = max(1, 3_000_000 // max(1, len(B)))
+        Bd = B.astype(float)
+        rbd = rb.astype(float)
+        for a in range(0, len(rest), step):
+            ii = rest[a:a + step]
+            p, r = P[ii], R[ii]
+            d2 = (p[:, 0:1] - Bd[None, :, 0]) ** 2 + (p[:, 1:2] - Bd[None, :, 1]) ** 2
+            cand = d2 <= d2.min(axis=1, keepdims=True) * (1 + 4e-9)
+            rpi = rp[ii].astype(float)[:, None]
+            t = np.where(rbd[None, :] < rpi, rbd[None, :] / np.where(rpi > 0, rpi, 1.0), 1.0)
+            od = o.astype(float)
+            tl = tol[ii].astype(float)[:, None]
+            hit = (np.abs(od[0] + t * (p[:, 0:1] - od[0]) - r[:, 0:1]) <= tl) & \
+                  (np.abs(od[1] + t * (p[:, 1:2] - od[1]) - r[:, 1:2]) <= tl)
+            stay_ok = (rbd[None, :] >= rpi * (1 - 4e-9)) & same[ii][:, None]
+            good = np.any(cand & (hit | stay_ok), axis=1)
+            good |= same[ii] & (rp[ii] <= rmin * (1 + 4e-9))
+            flagged[ii[~good]] = True
+        bad = np.flatnonzero(flagged)
+        if len(bad):
+            an = exact()
+            for i in bad:
+                i = int(i)
+                ok, why = self._check_relocation(an, [(F(float(P[i, 0])), F(float(P[i, 1])))],
+                                                 [(F(float(R[i, 0])), F(float(R[i, 1])))], None, name, base=i,
+                                                 total=len(P))
+                if not ok:
+                    return False, why
+        return True, ""
+
+    def _shrink_large(self, case):
+        if case.get("via"):
+            yield {**case, "via": None}
+        ms = case.get("mesh_spec")
+        if ms:
+            yield {**case, "mesh_spec": None, "via": None if case.get("via") == "delaunay" else case.get("via")}
+        if len(case.get("outliers", [])) > 1:
+            for o in case["outliers"]:
+                yield {**case, "outliers": [o]}
+        if ms and len(ms.get("outliers", [])) > 1:
+            for o in ms["outliers"]:
+                yield {**case, "mesh_spec": {**ms, "outliers": [o]}}
+        if case["src"].get("push"):
+            yield {**case, "src": {k: v for k, v in case["src"].items() if k != "push"}}
+
+    # ------------------------------------------------------------------ Round 4 (L2): history stream
+    HISTORY_TEMPLATES = ["edit_inplace", "edit_returned", "twins", "fault_reuse", "shared_sources",
+                         "shared_grid_two_relocators", "decoy_first", "derived", "preloads", "tiny_twins", "id_reuse"]
+
+    def history_cases(self, rng, rounds):
+        for r in range(rounds):
+            yield self._gen_history(rng, self.HISTORY_TEMPLATES[r % len(self.HISTORY_TEMPLATES)])
+
+    def _history_world(self, rng):
+        kinds = ["block", "annulus", "cross", "bernoulli", "blocks", "lshape", "all"]
+        while True:
+            h, w = rng.randint(4, 6), rng.randint(4, 7)
+            kind = rng.choice(kinds)
+            if kind == "lshape":
+                rows = gen.full(h, w)
+                for y in range(1, h - 1):
+                    rows[y][1] = False
+                for x in range(1, w - 1):
+                    rows[h - 2][x] = False
+            else:
+                rows, _ = gen.random_mask(rng, h, w, margin=1, kind=kind)
+            npx = len(unmasked_pixels(rows))
+            if npx < 3:
+                continue
+            mode = rng.choice(["u1", "u2", "mixed", "u2"])
+            sub = [1] * npx if mode == "u1" else [2] * npx if mode == "u2" else [rng.choice([1, 2, 3]) for _ in range(npx)]
+            if sum(s * s for s in sub) > 72:
+                continue
+            bp = border_pixels_independent(rows)
+            if not bp:
+                continue
+            sb = [farthest_candidates(rows, sub, k)[-1] for k in bp]
+            ps = (rng.choice(gen.SCALES), rng.choice(gen.SCALES))
+            origin = gen.origin_pair(rng) if rng.random() < 0.7 else (F(0), F(0))
+            return rows, sub, ps, origin, sb, (mode != "mixed" and rng.random() < 0.5)
+
+    def _gen_history(self, rng, template):
+        rows, sub, ps, origin, sb, int_sub = self._history_world(rng)
+        dists = ["affine", "scale", "radial", "jitter", "affine"]
+        c0 = self._case(rng, rows, sub, ps, origin, "h", distortion=rng.choice(dists))
+        c1 = self._case(rng, rows, sub, ps, origin, "h", distortion=rng.choice(dists))
+        fl = lambda lst: [(float(F(a)), float(F(b))) for a, b in lst]
+        ql = lambda lst: [[q(a), q(b)] for a, b in lst]
+        g0, g1 = fl(c0["grid"]), fl(c1["grid"])
+        n = len(g0)
+
+        def some_mesh(c):
+            m = fl(c["mesh"])
+            while len(m) < 4:
+                m.append((float(gen.dyadic(rng, -12, 12, 3)), float(gen.dyadic(rng, -12, 12, 3))))
+            return m[:10]
+
+        m0, m1 = some_mesh(c0), some_mesh(c1)
+        world = {"mask": mask_json(rows), "sub": list(sub), "int_sub": bool(int_sub),
+                 "ps": [q(ps[0]), q(ps[1])], "origin": [q(origin[0]), q(origin[1])]}
+        worlds = [world]
+        objs = {"g0": ql(g0), "g1": ql(g1), "m0": ql(m0), "m1": ql(m1)}
+        forms = {}
+        raw_g0 = template in ("derived", "edit_inplace") and rng.random() < 0.3
+        if raw_g0:
+            forms["g0"] = "raw"          # a bare caller-owned ndarray, edited through numpy
+        elif all(s_ == 1 for s_ in sub) and rng.random() < 0.6:
+            forms["g0"] = "grid2d"       # a uniform Grid2D on world 0's mask, edited through its __setitem__
+            if rng.random() < 0.5:
+                forms["g1"] = "grid2d"
+        nonb = [i for i in range(n) if i not in set(sb)] or list(range(n))
+        pt = lambda: [q(gen.dyadic(rng, -9, 9, 3)), q(gen.dyadic(rng, -9, 9, 3))]
+        farpt = lambda: [q(gen.dyadic(rng, 20, 60, 2) * rng.choice([1, -1])), q(gen.dyadic(rng, -40, 40, 2))]
+
+        def border_edits(o, k=None):
+            """in-place edits of border entries (they move the centroid and the border radii) and one outlier"""
+            out = []
+            for i in rng.sample(sb, min(len(sb), k or rng.randint(1, 3))):
+                out.append(["set", o, i, pt() if rng.random() < 0.7 else farpt()])
+            out.append(["set", o, rng.choice(nonb), farpt()])
+            return out
+
+        S = []
+        if template == "edit_inplace":
+            S += [["reloc", 0, "g0", "r0"], ["mesh", 0, "g0", "m0", "q0"]]
+            S += border_edits("g0")
+            S += [["mesh", 0, "g0", "m0", "q1"], ["reloc", 0, "g0", "r1"]]
+            S += [["set", "m0", rng.randrange(len(m0)), farpt()], ["mesh", 0, "g0", "m0", "q2"]]
+            S += [["setall", "g0", ql(g1)], ["mesh", 0, "g0", "m0", "q3"], ["reloc", 0, "g0", "r2"]]
+            if not raw_g0:
+                S += [["via", "rect", 0, "g0", None, "vg", None]]
+        elif template == "edit_returned":
+            S += [["reloc", 0, "g0", "r0"], ["mesh", 0, "r0", "m0", "q0"]]
+            S += [["setall", "r0", ql(g1)]] if rng.random() < 0.5 else border_edits("r0")
+            S += [["mesh", 0, "r0", "m0", "q1"], ["reloc", 0, "r0", "r1"]]
+            S += [["setall", "r1", ql(g0)], ["via", "delaunay", 0, "r1", "m0", "vg", "vm"]]
+            S += border_edits("vg", 2)
+            S += [["mesh", 0, "vg", "m1", "q2"], ["reloc", 0, "vg", "r2"], ["via", "rect", 0, "vg", None, "vg2", None]]
+            S += border_edits("vg2", 1)
+            S += [["via", "delaunay", 0, "vg2", "m1", "vg3", "vm3"]]
+        elif template in ("twins", "tiny_twins"):
+            if template == "tiny_twins":      # a world of coordinates ~1e-6: np.allclose's atol=1e-8 hides real changes
+                sc = 2.0 ** -20
+                g0 = [(a * sc, b * sc) for a, b in g0]
+                g1 = [(a * sc, b * sc) for a, b in g1]
+                m0 = [(a * sc, b * sc) for a, b in m0]
+                m1 = [(a * sc, b * sc) for a, b in m1]
+                objs.update({"g0": ql(g0), "g1": ql(g1), "m0": ql(m0), "m1": ql(m1)})
+                d = 2.0 ** -27
+                tw = [(a + d * ((i % 3) - 1), b - d * ((i % 2) * 2 - 1)) for i, (a, b) in enumerate(g0)]
+                tm = [(a - d, b + d) for a, b in m0]
+            else:
+                e = 2.0 ** -20
+                tw = [(a * (1 + e), b * (1 - e)) for a, b in g0]
+                if rng.random() < 0.5:        # only border entries perturbed (absolute 2^-17 along one axis)
+                    tw = list(g0)
+                    for i in sb:
+                        tw[i] = (g0[i][0] + 2.0 ** -17, g0[i][1] - 2.0 ** -17)
+                tm = [(a * (1 - e), b * (1 + e)) for a, b in m0]
+            S += [["reloc", 0, "g0", "r0"], ["mesh", 0, "g0", "m0", "q0"]]
+            S += [["derive", "g0", "fresh", "t0", ql(tw)], ["reloc", 0, "t0", "r1"], ["mesh", 0, "t0", "m0", "q1"]]
+            S += [["derive", "m0", "fresh", "tm", ql(tm)], ["mesh", 0, "t0", "tm", "q2"], ["mesh", 0, "g0", "tm", "q3"]]
+            S += [["via", "delaunay", 0, "g0", "m0", "vg", "vm"], ["via", "delaunay", 0, "t0", "tm", "vg1", "vm1"]]
+            S += [["via", "rect", 0, "t0", None, "vg2", None], ["via", "rect", 0, "g0", None, "vg3", None]]
+            # twin worlds: the same mask with pixel scales / origin perturbed by ~1e-6 relative
+            w1 = dict(world)
+            w1["ps"] = [q(float(ps[0]) * (1 + 2.0 ** -20)), q(float(ps[1]) * (1 - 2.0 ** -20))]
+            w1["origin"] = [q(float(origin[0]) + 2.0 ** -19), q(float(origin[1]) - 2.0 ** -19)]
+            worlds.append(w1)
+            S += [["reloc", 1, "g0", "r2"], ["mesh", 1, "t0", "m0", "q4"]]
+        elif template == "fault_reuse":
+            S += [["reloc", 0, "g0", "r0"], ["fault", 0, "short_grid", "g0"], ["mesh", 0, "g0", "m0", "q0"]]
+            S += [["fault", 0, "bad_mesh", "g0"], ["reloc", 0, "g0", "r1"], ["fault", 0, "via_bad_mesh", "g1"]]
+            S += [["mesh", 0, "g0", "m0", "q1"], ["via", "delaunay", 0, "g0", "m0", "vg", "vm"]]
+            S += [["fault", 0, "none_grid", "g0"], ["reloc", 0, "g1", "r2"], ["fault", 0, "via_bad_grid", "g0"]]
+            S += [["via", "rect", 0, "g1", None, "vg2", None], ["mesh", 0, "g1", "m1", "q2"]]
+        elif template == "shared_sources":
+            a, b = ("g0", "m0"), ("g1", "m1")
+            if rng.random() < 0.5:
+                a, b = b, a
+            S += [["reloc", 0, a[0], "r0"], ["mesh", 0, a[0], a[1], "q0"], ["reloc", 0, b[0], "r1"],
+                  ["mesh", 0, b[0], b[1], "q1"], ["mesh", 0, a[0], b[1], "q2"], ["mesh", 0, b[0], a[1], "q3"],
+                  ["via", "delaunay", 0, a[0], a[1], "vg", "vm"], ["via", "delaunay", 0, b[0], b[1], "vg1", "vm1"],
+                  ["via", "rect", 0, b[0], None, "vg2", None], ["via", "rect", 0, a[0], None, "vg3", None],
+                  ["mesh", 0, "r0", b[1], "q4"], ["mesh", 0, "r1", a[1], "q5"], ["reloc", 0, a[0], "r2"]]
+        elif template == "shared_grid_two_relocators":
+            # world 1: the mask flipped upside-down (same number of unmasked pixels -> same grid length);
+            # world 2: the SAME Mask2D object as world 0 with another sub-size map of the same total
+            w1 = dict(world)
+            w1["mask"] = mask_json(rows[::-1])
+            w1["origin"] = [q(origin[0] + F(1, 2)), q(origin[1])]
+            worlds.append(w1)
+            w2 = dict(world)
+            w2["mask_of"] = 0
+            w2["sub"] = list(sub[::-1])
+            w2["int_sub"] = False
+            worlds.append(w2)
+            order = [0, 1, 2]
+            rng.shuffle(order)
+            for j, wi in enumerate(order):
+                S += [["reloc", wi, "g0", f"r{j}"], ["mesh", wi, "g0", "m0", f"q{j}"]]
+            for j, wi in enumerate(reversed(order)):
+                S += [["mesh", wi, "g1", "m1", f"p{j}"], ["reloc", wi, "g1", f"s{j}"]]
+            S += [["via", "delaunay", order[0], "g0", "m0", "vg", "vm"], ["via", "delaunay", order[1], "g0", "m0", "vg1", "vm1"],
+                  ["via", "rect", order[2], "g1", None, "vg2", None], ["via", "rect", order[0], "g1", None, "vg3", None]]
+        elif template == "decoy_first":
+            decoys = ["br.border_grid", "br.sub_grid", "br.sub_border_grid", "mask.derive_grid.border",
+                      "mask.derive_grid.edge", "mask.derive_indexes.edge_slim", "mask.derive_indexes.border_slim",
+                      "mask.derive_grid.unmasked", "br.sub_size", "mask.derive_indexes.native_for_slim"]
+            rng.shuffle(decoys)
+            S += [["decoy", 0, d] for d in decoys[:rng.randint(2, 6)]]
+            obs_steps = [["mesh", 0, "g0", "m0", "q0"], ["via", "rect", 0, "g0", None, "vg", None],
+                         ["via", "delaunay", 0, "g1", "m1", "vg1", "vm1"], ["reloc", 0, "g0", "r0"],
+                         ["mesh", 0, "g1", "m0", "q1"], ["reloc", 0, "g1", "r1"]]
+            rng.shuffle(obs_steps)
+            for st in obs_steps:
+                S.append(st)
+                if rng.random() < 0.4:
+                    S.append(["decoy", 0, rng.choice(decoys)])
+        elif template == "derived":
+            k2 = rng.choice([2, 0.5, 4])
+            off = [q(gen.dyadic(rng, -2, 2, 2)), q(gen.dyadic(rng, -2, 2, 2))]
+            S += [["reloc", 0, "g0", "r0"], ["mesh", 0, "g0", "m0", "q0"], ["derive", "g0", "deepcopy", "d0", None]]
+            S += border_edits("d0")
+            S += [["reloc", 0, "d0", "r1"], ["mesh", 0, "d0", "m0", "q1"], ["mesh", 0, "g0", "m0", "q2"]]
+            S += [["derive", "g0", "mul", "d1", q(k2)], ["reloc", 0, "d1", "r2"], ["mesh", 0, "d1", "m0", "q3"]]
+            S += [["derive", "g0", "add", "d2", off], ["mesh", 0, "d2", "m0", "q4"], ["reloc", 0, "d2", "r3"]]
+            S += [["derive", "r0", "slice", "d3", None], ["mesh", 0, "d3", "m1", "q5"]]
+            S += [["derive", "r3", "deepcopy", "d4", None], ["setall", "d4", ql(g1)], ["mesh", 0, "d4", "m1", "q6"],
+                  ["reloc", 0, "d4", "r4"]]
+            S += [["imul", "g0", q(rng.choice([2, 0.5]))], ["reloc", 0, "g0", "r5"], ["mesh", 0, "g0", "m0", "q7"]]
+            S += [["imul", "m0", q(2)], ["mesh", 0, "g0", "m0", "q8"]]
+        elif template == "preloads":
+            S += [["via", "rect", 0, "g0", None, "vg", None], ["via_preload", "rect", 0, "g0", None, "g1"],
+                  ["via", "rect", 0, "g0", None, "vg1", None], ["via_preload", "delaunay", 0, "g1", "m0", "g0"],
+                  ["via", "delaunay", 0, "g1", "m0", "vg2", "vm2"], ["reloc", 0, "g0", "r0"],
+                  ["via_preload", "delaunay", 0, "g0", "m1", "r0"], ["mesh", 0, "g0", "m1", "q0"],
+                  ["via", "delaunay", 0, "g0", "m1", "vg3", "vm3"], ["reloc", 0, "g1", "r1"]]
+        elif template == "id_reuse":
+            # objects are dropped and brand-new ones (other values, same shape) created right away: CPython tends to
+            # hand the freed address to the next object of the same size, so anything keyed on id() goes stale
+            S += [["reloc", 0, "g0", "r0"], ["mesh", 0, "g0", "m0", "q0"], ["drop", "g0"], ["drop", "r0"], ["drop", "q0"]]
+            for j in range(3):
+                vals = g1 if j % 2 == 0 else [(a * 0.5 + 0.25, b * 2.0) for a, b in g0]
+                S += [["derive", "m0", "fresh", f"t{j}", ql(vals)], ["mesh", 0, f"t{j}", "m0", f"p{j}"],
+                      ["reloc", 0, f"t{j}", f"s{j}"], ["drop", f"t{j}"], ["drop", f"p{j}"], ["drop", f"s{j}"]]
+            S += [["derive", "m1", "fresh", "t9", ql(g0)], ["via", "delaunay", 0, "t9", "m1", "vg", "vm"],
+                  ["mesh", 0, "t9", "m0", "q9"]]
+        return {"tag": f"history_{template}", "kind": "history", "worlds": worlds, "objs": objs, "forms": forms,
+                "steps": S}
+
+    @staticmethod
+    def _history_valid(case):
+        """every step only uses objects that exist at that point (shrinking must not create nonsense)"""
+        names = set(case["objs"])
+        nw = len(case["worlds"])
+        for st in case["steps"]:
+            op = st[0]
+            use, new, w = [], [], None
+            if op == "reloc":
+                w, use, new = st[1], [st[2]], [st[3]]
+            elif op == "mesh":
+                w, use, new = st[1], [st[2], st[3]], [st[4]]
+            elif op == "via":
+                w, use, new = st[2], [st[3]] + ([st[4]] if st[1] == "delaunay" else []), [st[5]] + ([st[6]] if st[1] == "delaunay" else [])
+            elif op == "via_preload":
+                w, use = st[2], [st[3], st[5]] + ([st[4]] if st[1] == "delaunay" else [])
+            elif op in ("set", "setall", "imul"):
+                use = [st[1]]
+            elif op == "derive":
+                use, new = [st[1]], [st[3]]
+            elif op == "decoy":
+                w = st[1]
+            elif op == "fault":
+                w, use = st[1], [st[3]]
+            elif op == "drop":
+                use = [st[1]]
+            if op == "drop" and st[1] in names:
+                names = names - {st[1]}
+                continue
+            if (w is not None and not 0 <= w < nw) or any(u not in names for u in use):
+                return False
+            names |= set(new)
+        return all(("mask_of" not in wd) or wd["mask_of"] < i for i, wd in enumerate(case["worlds"]))
+
+    def _run_history(self, case):
+        aa = load_autoarray()
+        from autoarray.inversion.pixelization.border_relocator import BorderRelocator
+        from autoarray.preloads import Preloads
+        import copy
+
+        worlds = []
+        for wd in case["worlds"]:
+            if "mask_of" in wd:
+                mask = worlds[wd["mask_of"]]["mask"]
+            else:
+                mask = aa.Mask2D(mask=np.array(self._rows(wd), dtype=bool),
+                                 pixel_scales=tuple(float(F(v)) for v in wd["ps"]),
+                                 origin=tuple(float(F(v)) for v in wd["origin"]))
+            sub = wd["sub"]
+            if wd.get("int_sub") and len(set(sub)) == 1:
+                sub_size = int(sub[0])
+            else:
+                sub_size = aa.Array2D(values=np.array(sub, dtype=int), mask=mask)
+            worlds.append({"mask": mask, "br": BorderRelocator(mask=mask, sub_size=sub_size)})
+        nparr = lambda vals: np.array([[float(F(a)), float(F(b))] for a, b in vals], dtype=float).reshape(-1, 2)
+        objs = {}
+        for name, vals in case["objs"].items():
+            a = nparr(vals)
+            form = case.get("forms", {}).get(name)
+            objs[name] = a if form == "raw" else aa.Grid2D(values=a, mask=worlds[0]["mask"]) if form == "grid2d" \
+                else aa.Grid2DIrregular(values=a)
+        meshes = {"delaunay": aa.mesh.Delaunay(), "rect": aa.mesh.Rectangular(shape=(3, 3))}
+        arr = lambda o: np.asarray(o.array if hasattr(o, "array") else o, dtype=float).reshape(-1, 2)
+        ql = lambda o: [[q(a), q(b)] for a, b in arr(o)]
+        hist, nontrivial, final_dropped = [], False, {}
+        r = t = mg = e = tgt = None
+
+        def via(kind, w, g, m, **kw):
+            args = dict(mask=worlds[w]["mask"], source_plane_data_grid=g, border_relocator=worlds[w]["br"], **kw)
+            if kind == "delaunay":
+                args["source_plane_mesh_grid"] = m
+            return meshes[kind].mapper_grids_from(**args)
+
+        for k, st in enumerate(case["steps"]):
+            op = st[0]
+            if op == "reloc":
+                _, w, g, out = st
+                before = arr(objs[g]).copy()
+                r = worlds[w]["br"].relocated_grid_from(grid=objs[g])
+                objs[out] = r
+                mv = np.any(arr(r) != before, axis=1) if arr(r).shape == before.shape else np.array([True, False])
+                nontrivial = nontrivial or (mv.any() and not mv.all())
+                hist.append({"k": k, "out": ql(r)})
+            elif op == "mesh":
+                _, w, g, m, out = st
+                r = worlds[w]["br"].relocated_mesh_grid_from(grid=objs[g], mesh_grid=objs[m])
+                objs[out] = r
+                hist.append({"k": k, "out": ql(r)})
+            elif op == "via":
+                _, kind, w, g, m, og, om = st
+                mg = via(kind, w, objs[g], objs[m] if kind == "delaunay" else None)
+                objs[og] = mg.source_plane_data_grid
+                e = {"k": k, "out": ql(mg.source_plane_data_grid)}
+                if kind == "delaunay":
+                    objs[om] = mg.source_plane_mesh_grid
+                    e["mesh"] = ql(mg.source_plane_mesh_grid)
+                hist.append(e)
+            elif op == "via_preload":
+                _, kind, w, g, m, pre = st
+                via(kind, w, objs[g], objs[m] if kind == "delaunay" else None,
+                    preloads=Preloads(relocated_grid=objs[pre]))
+            elif op == "set":
+                _, o, i, (y, x) = st
+                objs[o][i] = [float(F(y)), float(F(x))]
+            elif op == "setall":
+                objs[st[1]][:, :] = nparr(st[2])
+            elif op == "imul":
+                t = objs[st[1]]
+                t *= float(F(st[2]))
+                objs[st[1]] = t
+            elif op == "derive":
+                _, o, how, new, arg = st
+                if how == "deepcopy":
+                    objs[new] = copy.deepcopy(objs[o])
+                elif how == "mul":
+                    objs[new] = objs[o] * float(F(arg))
+                elif how == "add":
+                    objs[new] = objs[o] + np.array([float(F(arg[0])), float(F(arg[1]))])
+                elif how == "slice":
+                    objs[new] = objs[o][:]
+                else:
+                    objs[new] = aa.Grid2DIrregular(values=nparr(arg))
+            elif op == "drop":
+                final_dropped[st[1]] = ql(objs[st[1]])
+                del objs[st[1]]
+                r = t = mg = e = tgt = None
+            elif op == "decoy":
+                tgt = worlds[st[1]]["br"] if st[2].startswith("br.") else worlds[st[1]]["mask"]
+                for part in st[2].split(".")[1:]:
+                    tgt = getattr(tgt, part)
+                np.asarray(tgt)
+            elif op == "fault":
+                _, w, kind, g = st
+                br = worlds[w]["br"]
+                try:
+                    if kind == "short_grid":
+                        br.relocated_grid_from(grid=aa.Grid2DIrregular(values=[(0.5, 0.25)]))
+                    elif kind == "bad_mesh":
+                        br.relocated_mesh_grid_from(grid=objs[g], mesh_grid=np.zeros(4))
+                    elif kind == "via_bad_mesh":
+                        via("delaunay", w, objs[g], np.zeros(4))
+                    elif kind == "via_bad_grid":
+                        via("rect", w, aa.Grid2DIrregular(values=[(0.5, 0.25)]), None)
+                    else:
+                        br.relocated_grid_from(grid=None)
+                    hist.append({"k": k, "raised": False})
+                except Exception as e:  # noqa: BLE001 — the fault is the point; what follows is what is observed
+                    hist.append({"k": k, "raised": True, "exc": type(e).__name__})
+            else:
+                raise ValueError(f"unknown history step {st}")
+        wobs = []
+        for wd in worlds:
+            sbl = [int(v) for v in np.asarray(wd["br"].sub_border_slim)]
+            wobs.append({"border": [int(v) for v in np.asarray(wd["mask"].derive_indexes.border_slim)],
+                         "sub_border": sbl,
+                         "sub_border_grid": [[q(a), q(b)] for a, b in np.asarray(wd["br"].sub_border_grid)] if sbl else []})
+        return {"hist": hist, "worlds": wobs, "final": {**final_dropped, **{name: ql(o) for name, o in objs.items()}},
+                "nontrivial": bool(nontrivial)}
+
+    @staticmethod
+    def _shadow_history(case, obs):
+        """what every object holds at every observing step, from the case's explicit edits (float arithmetic
+        exactly as numpy does it element-wise) and — for objects RETURNED by the library — the values observed
+        when they were returned (each of which is itself judged at that step).  No library code runs here."""
+        fl = lambda lst: [(float(F(a)), float(F(b))) for a, b in lst]
+        objs = {n: fl(v) for n, v in case["objs"].items()}
+        alias = {}
+        by_k = {e["k"]: e for e in obs["hist"]}
+        exp = []
+        for k, st in enumerate(case["steps"]):
+            op = st[0]
+            if op == "reloc":
+                exp.append({"k": k, "w": st[1], "grid": list(objs[st[2]]), "pts": None, "step": st})
+                objs[st[3]] = fl(by_k[k]["out"])
+            elif op == "mesh":
+                exp.append({"k": k, "w": st[1], "grid": list(objs[st[2]]), "pts": list(objs[st[3]]), "step": st})
+                objs[st[4]] = fl(by_k[k]["out"])
+            elif op == "via":
+                exp.append({"k": k, "w": st[2], "grid": list(objs[st[3]]),
+                            "pts": list(objs[st[4]]) if st[1] == "delaunay" else None, "via": st[1], "step": st})
+                objs[st[5]] = fl(by_k[k]["out"])
+                if st[1] == "delaunay":
+                    objs[st[6]] = fl(by_k[k]["mesh"])
+            elif op == "set":
+                objs[st[1]][st[2]] = (float(F(st[3][0])), float(F(st[3][1])))
+            elif op == "setall":
+                objs[st[1]][:] = fl(st[2])
+            elif op == "imul":
+                kf = float(F(st[2]))
+                objs[st[1]][:] = [(a * kf, b * kf) for a, b in objs[st[1]]]
+            elif op == "derive":
+                _, o, how, new, arg = st
+                if how in ("deepcopy",):
+                    objs[new] = list(objs[o])
+                elif how == "slice":
+                    objs[new] = objs[o]          # a view: shares the values of its source
+                elif how == "mul":
+                    kf = float(F(arg))
+                    objs[new] = [(a * kf, b * kf) for a, b in objs[o]]
+                elif how == "add":
+                    dy, dx = float(F(arg[0])), float(F(arg[1]))
+                    objs[new] = [(a + dy, b + dx) for a, b in objs[o]]
+                else:
+                    objs[new] = fl(arg)
+        return exp, objs
+
+    def _history_requests(self, case, obs):
+        reqs = []
+        for wd, wo in zip(case["worlds"], obs["worlds"]):
+            reqs.append({"op": "c18.sub_border", "mask": wd["mask"], "sub": wd["sub"], "border": wo["border"]})
+            reqs.append({"op": "c18.sub_grid", "mask": wd["mask"], "sub": wd["sub"], "pixel_scales": wd["ps"],
+                         "origin": wd["origin"]})
+        exp, _ = self._shadow_history(case, obs)
+        for e in exp:
+            sbl = obs["worlds"][e["w"]]["sub_border"]
+            if not sbl or any(i >= len(e["grid"]) for i in sbl):
+                reqs.append({"op": "c18.sub_grid", "mask": case["worlds"][0]["mask"], "sub": case["worlds"][0]["sub"],
+                             "pixel_scales": ["1", "1"], "origin": ["0", "0"]})     # placeholder keeps positions aligned
+                continue
+            r = {"op": "c18.relocate", "grid": [[q(a), q(b)] for a, b in e["grid"]], "sub_border": sbl}
+            if e["pts"] is not None:
+                r["mesh"] = [[q(a), q(b)] for a, b in e["pts"]]
+            reqs.append(r)
+        return reqs
+
+    def _compare_history(self, case, obs, mobs, cmp):
+        resp = mobs["responses"]
+        nw = len(case["worlds"])
+        for wi, (wd, wo) in enumerate(zip(case["worlds"], obs["worlds"])):
+            rsb, rsg = resp[2 * wi], resp[2 * wi + 1]
+            exact_sub = all(s in POW2 for s in wd["sub"])
+            sb_i, sb_m, ties = wo["sub_border"], rsb["idx"], rsb["ties"]
+            if len(sb_i) != len(sb_m):
+                return f"$.worlds[{wi}].sub_border: length impl={len(sb_i)} model={len(sb_m)}"
+            for k, (a, b) in enumerate(zip(sb_i, sb_m)):
+                if exact_sub or len(ties[k]) == 1:
+                    d = cmp.diff(a, b, f"$.worlds[{wi}].sub_border[{k}]")
+                    if d:
+                        return d
+                elif a not in ties[k]:
+                    return f"$.worlds[{wi}].sub_border[{k}]: impl={a} not among the exact maximisers {ties[k]}"
+            d = cmp.diff(wo["sub_border_grid"], [rsg[i] for i in sb_i], f"$.worlds[{wi}].sub_border_grid")
+            if d:
+                return d
+        exp, _ = self._shadow_history(case, obs)
+        by_k = {e["k"]: e for e in obs["hist"]}
+        for j, e in enumerate(exp):
+            r = resp[2 * nw + j]
+            if not isinstance(r, dict) or "grid" not in r:
+                continue
+            got = by_k[e["k"]]
+            path = f"$.step[{e['k']}]({e['step'][0]})"
+            if e.get("via"):
+                d = cmp.diff(got["out"], r["grid"], path + ".data_grid")
+                if not d and e["via"] == "delaunay":
+                    d = cmp.diff(got["mesh"], r["mesh_chained"], path + ".mesh_grid")
+            elif e["pts"] is None:
+                d = cmp.diff(got["out"], r["grid"], path)
+            else:
+                d = cmp.diff(got["out"], r["mesh"], path)
+            if d:
+                return d + "  [expected = model value for a freshly built relocator on the current values]"
+        return None
+
+    def _oracle_history(self, case, obs):
+        for wi, (wd, wo) in enumerate(zip(case["worlds"], obs["worlds"])):
+            rows, sub = self._rows(wd), wd["sub"]
+            border, sb = wo["border"], wo["sub_border"]
+            if ring_masked(rows) and border != border_pixels_independent(rows):
+                return False, f"world {wi}: border pixels {border} != independently derived"
+            if len(sb) != len(border):
+                return False, f"world {wi}: one sub-border index per border pixel expected"
+            for b, s_idx in zip(border, sb):
+                cands = farthest_candidates(rows, sub, b)
+                if s_idx not in cands:
+                    return False, (f"(d) world {wi} (read at the end of the history) border pixel {b}: sub index {s_idx} "
+                                   f"is not a farthest sub-pixel of that pixel (farthest: {cands})")
+            sg = scaled_sub_grid(rows, sub, tuple(F(v) for v in wd["ps"]), tuple(F(v) for v in wd["origin"]))
+            for k, s_idx in enumerate(sb):
+                got = pts([wo["sub_border_grid"][k]])[0]
+                for c in (0, 1):
+                    if abs(got[c] - sg[s_idx][c]) > BAND * max(1, abs(sg[s_idx][c])):
+                        return False, f"(d) world {wi}: sub_border_grid[{k}] is not the coordinate of sub-pixel {s_idx}"
+        exp, final = self._shadow_history(case, obs)
+        by_k = {e["k"]: e for e in obs["hist"]}
+        cache = {}
+        toF = lambda lst: [(F(a), F(b)) for a, b in lst]
+        for e in exp:
+            sbl = obs["worlds"][e["w"]]["sub_border"]
+            got = by_k[e["k"]]
+            grid = toF(e["grid"])
+            if not sbl:
+                continue
+            if any(i >= len(grid) for i in sbl):
+                return False, f"history step {e['k']} {e['step']}: grid shorter than the sub-border indices"
+            key = (e["w"], tuple(e["grid"][i] for i in sbl))
+            if key not in cache:
+                cache[key] = Analysis([grid[i] for i in sbl])
+            an = cache[key]
+            checks = []
+            if e.get("via"):
+                checks.append((grid, got["out"], "data grid"))
+                if e["via"] == "delaunay":
+                    checks.append((toF(e["pts"]), got["mesh"], "mesh grid"))
+            elif e["pts"] is None:
+                checks.append((grid, got["out"], "grid"))
+            else:
+                checks.append((toF(e["pts"]), got["out"], "mesh"))
+            for inp, out, nm in checks:
+                ok, why = self._check_relocation(an, inp, pts(out), None, nm)
+                if not ok:
+                    return False, (f"history step {e['k']} {e['step'][:5]}: the result is not the relocation against the "
+                                   f"border of the data grid AS IT IS NOW (what a freshly built relocator gives): {why}")
+        for name, vals in final.items():
+            got = [(float(F(a)), float(F(b))) for a, b in obs["final"].get(name, [])]
+            if got != [tuple(v) for v in vals]:
+                bad = next((i for i, (x, y) in enumerate(zip(got, vals)) if tuple(x) != tuple(y)), min(len(got), len(vals)))
+                return False, (f"object {name} does not hold the values its history gives it (entry {bad}): an input was "
+                               f"modified by a relocation, or an in-place edit was lost / went to another object")
+        return True, ""
+
+    def _shrink_history(self, case):
+        steps = case["steps"]
+        for i in range(len(steps) - 1, -1, -1):
+            c2 = {**case, "steps": steps[:i] + steps[i + 1:]}
+            if self._history_valid(c2):
+                yield c2
+        used = {x for st in steps for x in st if isinstance(x, str)}
+        for name in list(case["objs"]):
+            if name not in used:
+                yield {**case, "objs": {k: v for k, v in case["objs"].items() if k != name}}
+
     # ------------------------------------------------------------------ implementation
     @staticmethod
     def _rows(case):
@@ -402,6 +1433,10 @@ class C18(PropertyCheck):
         return [bits[y * mj["w"]:(y + 1) * mj["w"]] for y in range(mj["h"])]
 
     def run_impl(self, case):
+        if case.get("kind") == "large":
+            return self._run_large(case)
+        if case.get("kind") == "history":
+            return self._run_history(case)
         aa = load_autoarray()
         from autoarray.inversion.pixelization.border_relocator import BorderRelocator
 
@@ -458,6 +1493,10 @@ class C18(PropertyCheck):
     def model_requests(self, case, impl_obs):
         if "err" in impl_obs:
             return []
+        if case.get("kind") == "large":
+            return []                       # judged by the vectorised oracle alone (DESIGN §13)
+        if case.get("kind") == "history":
+            return self._history_requests(case, impl_obs)
         reqs = [{"op": "c18.sub_border", "mask": case["mask"], "sub": case["sub"],
                  "border": impl_obs["border"]}]
         if impl_obs.get("empty_border"):
@@ -474,6 +1513,8 @@ class C18(PropertyCheck):
         for r in responses:
             if "err" in r:
                 return {"err": r["err"]}
+        if case.get("kind") == "history":
+            return {"responses": [r["ok"] for r in responses]}
         out = {"sub_border": responses[0]["ok"]["idx"], "ties": responses[0]["ok"]["ties"]}
         if len(responses) > 1:
             out["sub_grid"] = responses[1]["ok"]
@@ -483,6 +1524,8 @@ class C18(PropertyCheck):
     def compare(self, case, impl_obs, model_obs, cmp):
         if "err" in impl_obs or "err" in model_obs:
             return cmp.diff(impl_obs, model_obs)
+        if case.get("kind") == "history":
+            return self._compare_history(case, impl_obs, model_obs, cmp)
         exact_sub = all(s in POW2 for s in case["sub"])
         sb_i, sb_m, ties = impl_obs["sub_border"], model_obs["sub_border"], model_obs["ties"]
         if len(sb_i) != len(sb_m):
@@ -525,6 +1568,10 @@ class C18(PropertyCheck):
     def oracle(self, case, obs):
         if "err" in obs:
             return False, f"implementation raised {obs}"
+        if case.get("kind") == "large":
+            return obs["verdict"]["holds"], obs["verdict"]["detail"]
+        if case.get("kind") == "history":
+            return self._oracle_history(case, obs)
         rows = self._rows(case)
         sub = case["sub"]
         border, sb = obs["border"], obs["sub_border"]
@@ -574,11 +1621,12 @@ class C18(PropertyCheck):
         return True, ""
 
     @staticmethod
-    def _check_relocation(an, inp, out, moved, name):
+    def _check_relocation(an, inp, out, moved, name, base=0, total=None):
         if len(out) != len(inp):
             return False, f"(c) {name}: {len(inp)} coordinates in, {len(out)} out"
         o = an.o
-        for i, (p, r) in enumerate(zip(inp, out)):
+        for i0, (p, r) in enumerate(zip(inp, out)):
+            i = f"{i0 + base} of {total}" if total is not None else i0 + base
             rp2, band, cand = an.point(p)
             scale = max(1, abs(p[0]), abs(p[1]), abs(o[0]), abs(o[1]))
             tol = 4 * BAND * scale
@@ -627,11 +1675,21 @@ class C18(PropertyCheck):
         return True, ""
 
     def nontrivial(self, case, obs):
+        if case.get("kind") == "large":
+            return 0 < obs.get("n_moved", 0) < obs.get("n", 0)
+        if case.get("kind") == "history":
+            return bool(obs.get("nontrivial"))
         if "moved" in obs:
             return any(obs["moved"]) and not all(obs["moved"])
         return False
 
     def shrink(self, case):
+        if case.get("kind") == "large":
+            yield from self._shrink_large(case)
+            return
+        if case.get("kind") == "history":
+            yield from self._shrink_history(case)
+            return
         g = case["grid"]
         # drop mesh points, then simplify non-border grid points
         if case["mesh"]:
